@@ -27,7 +27,7 @@ def k1_corpus() -> list[dict]:
 
 def gen_cases(rng, tier: str) -> list[dict]:
     cases = []
-    stream = common.expr_stream(rng, tier, common.sizes(tier, 150, 2500), depth_q=3, depth_t=5, share=0.2)
+    stream = common.expr_stream(rng, tier, common.sizes(tier, 150, 2500), depth_q=3, depth_t=5, share=0.2, max_size=120)
     for origin, e in stream:
         vs = common.names_of(e)
         pts = common.points_for(rng, e, 3 if tier == "quick" else 6)
